@@ -422,6 +422,11 @@ def run(cx, rep):
     rep.rule("C08.14", "hash256 / hash of a union or intersection do not change when its named members are renamed or inlined (= C13.12)")
     from rules.c01 import lifted_rules
     lifted_rules(cx, rep, "C08.14", (("rules.c13", "C13.12"),))
+    # ---------------------------------------------------------------- C08.15 (= C01.7)
+    # `interface X extends B { .. }` and `type X = B & { .. }` are two spellings of one type: a lowering that rebuilds
+    # the members of one spelling from a node it took apart must carry over every constraint of the node
+    rep.rule("C08.15", "a frontend function that rebuilds a type from the parts of a node it matched carries over all of the node's constraints (= C01.7)")
+    lifted_rules(cx, rep, "C08.15", (("rules.c01", "C01.7"),))
     rep.rule("C08.7", "the dispatch table and the schema table of a discriminated union are built alike")
     sibling_tables_rule(cx, rep, "C08.7")
     rep.rule("C08.8", "renaming, introducing or inlining a generic wrapper does not change what a type parameter means (scope stacks are searched innermost-first; = C01.8)")
